@@ -49,11 +49,35 @@ End Select.
 Definition pick {A} (pos : list nat) (l : list A) : list A :=
   flat_map (fun i => match nth_error l i with Some x => [x] | None => [] end) pos.
 
+(* a list that came out empty is dropped, otherwise wrapped *)
+Definition envelope {R} (wrap : list R -> R) (r : list R) : list R := match r with [] => [] | _ => [wrap r] end.
+
 Definition simple_comp (c : comp) : bool := (c_sep c =? SEP_CHILD)%N || (c_sep c =? SEP_ATTRIB)%N.
 (* no component uses the descendant separator *)
 Definition simple_path (cs : list comp) : bool := forallb simple_comp cs.
+(* every separator is one of '/', '.', '>' (all the parser produces) *)
+Definition wf_path (cs : list comp) : bool :=
+  forallb (fun c => simple_comp c || (c_sep c =? SEP_DESCEND)%N) cs.
 
 (* ---- evaluation over the nested JSON rendering --------------------------------------- *)
+(* [collect] and a positional walk written with the function outside the [fix], so that a
+   structural recursion over a rendering may pass through them *)
+Definition collect_s {A B} (f : A -> result (list B)) : list A -> result (list B) :=
+  fix go (l : list A) : result (list B) :=
+  match l with
+  | [] => Ok []
+  | x :: r => let* a := f x in let* b := go r in Ok (a ++ b)
+  end.
+
+(* [visit] the entries of [l] whose position (counted from [i]) is in [P], in order *)
+Definition walk {A B} (P : list nat) (visit : A -> result (list B)) : nat -> list A -> result (list B) :=
+  fix go (i : nat) (l : list A) {struct l} : result (list B) :=
+  match l with
+  | [] => Ok []
+  | x :: t => let* a := (if existsb (Nat.eqb i) P then visit x else Ok []) in
+              let* b := go (S i) t in Ok (a ++ b)
+  end.
+
 Section Json.
 Context (labels : list (list char)).          (* str(decoded_descriptors[i]): the 'id' of a value node *)
 
@@ -63,15 +87,67 @@ Definition jlabel (n : jn) : list char :=
   | JVal (JV i _ _) => nth (N.to_nat i) labels []
   end.
 
-(* the end of a path: only a node with a 'value' yields one *)
-Definition jvalue (n : jn) : result (list vres) :=
-  match n with JVal (JV i _ _) => Ok [VIdx i] | _ => Err EQuery end.
+(* a node one can search below: it has 'members', a 'factor' or 'attributes' *)
+Definition jcomposite (n : jn) : bool :=
+  match n with JSeqN _ _ | JRep _ _ _ => true | JVal (JV _ _ (_ :: _)) => true | _ => false end.
 
-(* a list that came out empty is dropped, otherwise wrapped *)
-Definition venvelope (r : list vres) : list vres := match r with [] => [] | _ => [VList r] end.
+Section Gen.
+(* generic in what a path end yields ([leaf]) and how a list of results is wrapped *)
+Context {R : Type} (leaf : jn -> result (list R)) (wrap : list R -> R).
+
+(* ---- the descendant step '>': search of all composite nodes --------------------------- *)
+Section Desc.
+Context (c : comp) (cont : list jn -> result (list R)).
+
+(* the positions of a candidate list that a descendant step looks at: the entries labelled
+   id that the slice selects, and the composite entries with another label (searched below) *)
+Definition dpos (l : list jn) : result (list nat) :=
+  let* sel := select jlabel c l in
+  Ok (map fst (filter (fun p => existsb (Nat.eqb (fst p)) (map fst sel)
+                               || (negb (chars_eqb (jlabel (snd p)) (c_id c)) && jcomposite (snd p)))
+                      (enumerate 0 l))).
+
+(* a candidate: labelled id -> the rest of the path continues on it; composite -> searched
+   below ([down]); otherwise nothing *)
+Definition dvisit (x : jn) (down : result (list R)) : result (list R) :=
+  if chars_eqb (jlabel x) (c_id c) then cont [x] else if jcomposite x then down else Ok [].
+
+(* below a value node: its attributes *)
+Fixpoint jdesc_v (v : jv) {struct v} : result (list R) :=
+  match v with
+  | JV _ _ [] => Err EQuery                                     (* no descendant nodes *)
+  | JV _ _ ats => let* P := dpos (map JVal ats) in walk P (fun a => dvisit (JVal a) (jdesc_v a)) 0 ats
+  end.
+
+Fixpoint jdesc (n : jn) {struct n} : result (list R) :=
+  match n with
+  | JNo _ => Err EQuery                                         (* no descendant nodes *)
+  | JSeqN _ ms => let* P := dpos ms in walk P (fun x => dvisit x (jdesc x)) 0 ms
+  | JRep _ f reps =>
+      (* the members: positions chosen in the first repetition, visited in every repetition,
+         enveloped like a child step; then the factor *)
+      let* A := match reps with
+                | [] | [] :: _ => Ok []
+                | rep0 :: _ =>
+                    let* P := dpos rep0 in
+                    match P with
+                    | [] => Ok []
+                    | _ => let* env := collect_s (fun rep => let* r := walk P (fun x => dvisit x (jdesc x)) 0 rep in
+                                                             Ok (envelope wrap r)) reps in
+                           Ok (envelope wrap env)
+                    end
+                end in
+      let* B := match f with
+                | None => Ok []
+                | Some v => let* P := dpos [JVal v] in walk P (fun a => dvisit (JVal a) (jdesc_v a)) 0 [v]
+                end in
+      Ok (A ++ B)
+  | JVal v => jdesc_v v
+  end.
+End Desc.
 
 (* one step from node [n]; [cont] evaluates the rest of the path on the selected nodes *)
-Definition jstep (c : comp) (n : jn) (cont : list jn -> result (list vres)) : result (list vres) :=
+Definition jstep (c : comp) (n : jn) (cont : list jn -> result (list R)) : result (list R) :=
   if (c_sep c =? SEP_CHILD)%N then
     match n with
     | JSeqN _ ms =>
@@ -87,8 +163,8 @@ Definition jstep (c : comp) (n : jn) (cont : list jn -> result (list vres)) : re
             match sel with
             | [] => Ok []
             | _ =>
-                let* env := collect (fun rep => let* r := cont (pick (map fst sel) rep) in Ok (venvelope r)) reps in
-                Ok (venvelope env)
+                let* env := collect (fun rep => let* r := cont (pick (map fst sel) rep) in Ok (envelope wrap r)) reps in
+                Ok (envelope wrap env)
             end
         end
     | _ => Err EQuery                              (* no 'members' *)
@@ -99,17 +175,48 @@ Definition jstep (c : comp) (n : jn) (cont : list jn -> result (list vres)) : re
     | JVal (JV _ _ (a :: ats)) => let* sel := select jlabel c (map JVal (a :: ats)) in cont (map snd sel)
     | _ => Err EQuery                              (* neither 'factor' nor 'attributes' *)
     end
-  else Err EQuery.                                 (* descendant step: outside this reference *)
+  else if (c_sep c =? SEP_DESCEND)%N then jdesc c cont n
+  else Err EQuery.                                 (* no such separator *)
 
-Fixpoint jeval (cs : list comp) (n : jn) {struct cs} : result (list vres) :=
+Fixpoint jgen (cs : list comp) (n : jn) {struct cs} : result (list R) :=
   match cs with
   | [] => Err EIndex                               (* path_components[0] of an empty path *)
-  | c :: rest => jstep c n (match rest with [] => collect jvalue | _ => collect (jeval rest) end)
+  | c :: rest => jstep c n (match rest with [] => collect leaf | _ => collect (jgen rest) end)
   end.
+
+End Gen.
+
+(* the end of a path: only a node with a 'value' yields one *)
+Definition jvalue (n : jn) : result (list vres) :=
+  match n with JVal (JV i _ _) => Ok [VIdx i] | _ => Err EQuery end.
+
+(* values directly *)
+Definition jeval : list comp -> jn -> result (list vres) := jgen jvalue VList.
 
 (* the nested rendering of one subset is the member list of a virtual root *)
 Definition eval_json (nested : list jn) (cs : list comp) : result (list vres) :=
   jeval cs (JSeqN 0 nested).
+
+(* nodes first (each end node: its value if it has one), values afterwards *)
+Inductive ores := ONode (v : option N) | OList (l : list ores).
+Definition jleaf_o (n : jn) : result (list ores) :=
+  Ok [ONode (match n with JVal (JV i _ _) => Some i | _ => None end)].
+Fixpoint ovalue (o : ores) : result vres :=
+  match o with
+  | ONode (Some i) => Ok (VIdx i)
+  | ONode None => Err EQuery                       (* cannot query valueless node *)
+  | OList l =>
+      let* vs := (fix go (l : list ores) : result (list vres) :=
+                    match l with
+                    | [] => Ok []
+                    | x :: t => let* v := ovalue x in let* vs := go t in Ok (v :: vs)
+                    end) l in
+      Ok (VList vs)
+  end.
+Definition ovalues (os : list ores) : result (list vres) :=
+  collect (fun o => let* v := ovalue o in Ok [v]) os.
+Definition eval_json_nodes (nested : list jn) (cs : list comp) : result (list vres) :=
+  let* os := jgen jleaf_o OList cs (JSeqN 0 nested) in ovalues os.
 
 End Json.
 
@@ -117,8 +224,6 @@ End Json.
 Section Tree.
 Context (attrs : list attr) (labels : list (list char)).
 Context {R : Type} (leaf : qn -> result (list R)) (wrap : list R -> R).
-
-Definition envelope (r : list R) : list R := match r with [] => [] | _ => [wrap r] end.
 
 Definition ref_step (c : comp) (n : qn) (cont : list qn -> result (list R)) : result (list R) :=
   if (c_sep c =? SEP_CHILD)%N then
@@ -134,9 +239,9 @@ Definition ref_step (c : comp) (n : qn) (cont : list qn -> result (list R)) : re
             match sel with
             | [] => Ok []
             | _ =>
-                let* env := collect (fun rep => let* r := cont (pick (map fst sel) rep) in Ok (envelope r))
+                let* env := collect (fun rep => let* r := cont (pick (map fst sel) rep) in Ok (envelope wrap r))
                                     (chunk (S (length mem)) nmem mem) in
-                Ok (envelope env)
+                Ok (envelope wrap env)
             end
         end
     | _ => Err EQuery
